@@ -201,7 +201,7 @@ OnTick(ev) ==
   /\ viol' = viol \cup
        If(HasTimer /\ ~Saturated /\ ~shutCalled /\
           \E c \in DOMAIN calls :
-             /\ calls[c].accepted
+             /\ calls[c].accepted /\ ~calls[c].heldBack      \* heldBack: the concurrency limit delayed it earlier (the proviso)
              /\ \E it \in SeqSet(calls[c].items) : it \notin ExportedItems
              /\ ev.b > calls[c].accT + T * TickMs,
           V("C09", "DeadlineMissed", ev))
